@@ -26,14 +26,14 @@ Definition P_sign := 4%nat. Definition P_step := 5%nat. Definition P_recip := 6%
 Definition P_tstep := 8%nat. Definition P_expu := 9%nat. Definition P_sincn := 10%nat. Definition P_sincu := 11%nat.
 Definition P_sincn2 := 12%nat. Definition P_rect := 13%nat. Definition P_tri := 14%nat. Definition P_trap := 15%nat.
 Definition P_trap0 := 16%nat. Definition P_reciplin := 17%nat. Definition P_sech := 18%nat. Definition P_csch := 19%nat.
-Definition P_tanh := 20%nat. Definition P_cexp := 21%nat. Definition P_tratio := 22%nat.
+Definition P_tanh := 20%nat. Definition P_cexp := 21%nat. Definition P_tratio := 22%nat. Definition P_tration := 23%nat.
 
 Definition spec_tbl : list (nat * fn) :=
   [(P_const, sp_const); (P_t, sp_t); (P_t2, sp_t2); (P_abs, sp_abs); (P_sign, sp_sign); (P_step, sp_step);
    (P_recip, sp_recip); (P_recip2, sp_recip2); (P_tstep, sp_tstep); (P_expu, sp_expu); (P_sincn, sp_sincn);
    (P_sincu, sp_sincu); (P_sincn2, sp_sincn2); (P_rect, sp_rect); (P_tri, sp_tri); (P_trap, sp_trap);
    (P_trap0, sp_trap0); (P_reciplin, sp_reciplin); (P_sech, sp_sech); (P_csch, sp_csch); (P_tanh, sp_tanh);
-   (P_cexp, sp_cexp); (P_tratio, sp_tratio)].
+   (P_cexp, sp_cexp); (P_tratio, sp_tratio); (P_tration, sp_tration)].
 (* the inverse transformer evaluates the same closed forms at -x *)
 Fixpoint flipfn (e : fn) : fn :=
   match e with
